@@ -402,7 +402,6 @@ OLC_SCEN = {  # scenario -> (max preemption index explored = atomic accesses of 
     'c_ins_rem_k0': (80, 'insert into the inner node while the root collapses onto it'),
     'g_ins5_rem1': (80, 'insert that must grow a full I4 racing with the removal of a sibling'),
     'g_get3_ins5': (45, 'reader while the node grows I4 -> I16'),
-    'g_ins5_ins6': (80, 'two inserts into a full I4'),
     'g_ins5_ins5': (80, 'two inserts of the same key: exactly one succeeds'),
     's_get2_rem5': (45, 'reader while the node shrinks I16 -> I4'),
     's_rem1_rem5': (80, 'two removes at the shrink boundary'),
@@ -413,8 +412,11 @@ OLC_SCEN = {  # scenario -> (max preemption index explored = atomic accesses of 
     'p_get_split': (45, 'reader below a key-prefix split'),
     'p_rem_split': (80, 'remove below a key-prefix split'),
     'p_get_rem_sib': (45, 'reader while the sibling is removed and the two-child root collapses onto its leaf'),
+    'n_ins4_ins400': (100, 'insert growing a full inner node while its full non-root parent is grown (replaced) by another insert'),
+    'n_get2_ins400': (60, 'reader three levels deep while an inner node on its path is replaced by a larger one'),
+    'n_rem3_ins400': (100, 'remove three levels deep while the parent of its node is replaced'),
 }
-OLC_QUICK = {'C03': {'c_get_k1_rem_k0', 'g_ins5_rem1', 'g_ins5_ins5', 'l_get_rem', 's_get2_rem5'}, 'C04': {'c_get_k1_rem_k0', 'l_get_rem', 's_get2_rem5'}, 'C14': {'g_ins5_rem1', 'c_ins_rem_k0'}}
+OLC_QUICK = {'C03': {'c_get_k1_rem_k0', 'g_ins5_rem1', 'g_ins5_ins5', 'l_get_rem', 's_get2_rem5'}, 'C04': {'c_get_k1_rem_k0', 'l_get_rem', 's_get2_rem5'}, 'C14': {'g_ins5_rem1', 'n_ins4_ins400'}}
 OLC_KNOWN = {}    # (scenario, k) -> known finding id; filled from known_findings.txt ids below
 
 
@@ -437,10 +439,13 @@ def olc_wrappers():
 def olc_queries(pid, tier_all=None):
     u = U('olc_conc.cpp', 'nostats', max_node_type=2, yield_in='unodb::', extra_glue=[olc_wrappers()], extern_c=['verif_fixed_k'])
     qs = []
+    import fw
+    known, _fixed = fw.load_known()
+    kq = {i.split('@', 1)[1]: i for i, (prop, _d) in known.items() if prop == pid and '@' in i}
     for s, (kmax, what) in OLC_SCEN.items():
         for k in range(kmax + 1):
-            qs.append(Query('%s__k%d' % (s, k), u, '%s__k%d' % (s, k), unwind=12, checks='pointer', replay='none', trace=False, flags=['--slice-formula'],
-                            tier=tier_all or ('quick' if s in OLC_QUICK[pid] else 'thorough'), known=OLC_KNOWN.get((s, k)),
+            qs.append(Query('%s__k%d' % (s, k), u, '%s__k%d' % (s, k), unwind=20, checks='pointer', timeout=600, replay='none', trace=False, flags=['--slice-formula'],
+                            tier=tier_all or ('quick' if s in OLC_QUICK[pid] else 'thorough'), known=kq.get('%s__k%d' % (s, k)),
                             about='thread A preempted before its %d-th atomic access by one complete operation of thread B: %s' % (k, what) if k else 'no preemption (B after A): ' + what,
                             bounds={'scenario': s, 'preemption_index': k, 'preemptions': 1, 'threads': 2}))
     return qs
